@@ -72,6 +72,18 @@ def to_case(hist, bid):
     return dict(id=bid, cfg=h["cfg"], baseline=BASELINE, valid=h["valid"], must_reject=h["must_reject"], yaml=yaml_of(h["cfg"]), steps=[1])
 
 
+def _life(tier):
+    """Verdict-free: the whole life cycle (start with NRF registration and CGF, serve, terminate) against spec/AppLife.tla."""
+    def ph(sc, v):
+        try:
+            from . import fam_cgf
+            return fam_cgf.run_life(sc, tier, v.notes)
+        except Exception as e:
+            v.notes.append("life-cycle phase could not run: %s" % str(e)[:300])
+            return dict(life_phase="not run")
+    return ph
+
+
 def check(pid, tier, replay=None):
     consts = dict(DEV_TlsOptional=DEV["DEV_TlsOptional"], DEV_HttpsWithoutTls=DEV["DEV_HttpsWithoutTls"],
                   DEV_DuplicatesAccepted=DEV["DEV_DuplicatesAccepted"], MaxDist=2 if tier == "quick" else 3,
@@ -80,7 +92,7 @@ def check(pid, tier, replay=None):
         pid, tier, family="config", base_module="Config", consts=consts,
         invariants=["InvValidStarts", "InvMustRejectInvalid"], n_beh=900 if tier == "quick" else 9000,
         to_behaviour=to_case, harness_mode="config", trace_module="ConfigTrace", trace_consts={}, clauses=None,
-        replay=replay, chunk=12,
+        replay=replay, chunk=12, extra_phase=_life(tier),
         explanation="TLC checked on all 388 800 abstract configurations that whatever validation accepts guarantees every section "
                     "the start-up reads; the configurations within MaxDist changes of the valid baseline were rendered to YAML, "
                     "given to the real factory.ReadConfig, and every accepted one was used in a separate process to initialise the "
